@@ -3,7 +3,7 @@
    plus the port and interface-pinning rule, for ANY handlers; lif is the index of the
    interface the listener is bound to (0 = unbound), oob the interface index of the control
    message the request arrived with. *)
-From Verif Require Import Base BaseProofs Net Msg4 Chain ChainProofs Server4 Server4Run Server4Proofs Server4Examples.
+From Verif Require Import Base BaseProofs Net Msg4 Chain ChainProofs Server4 Server4Run Server4Proofs Server4Examples Assembly AssemblyProofs AsmRefine.
 Open Scope N_scope.
 
 Theorem dest4_relay :
@@ -120,6 +120,28 @@ Theorem listener_always_has_interface :
   end.
 Proof. exact (@Server4Proofs.listener_always_has_interface). Qed.
 Print Assumptions listener_always_has_interface.
+
+Theorem assembled_sent_is_handle4_sent :
+  forall (is : list inst4) (lif now : Z) (oob : option Z) (req : msg4)
+  (is' : list inst4) (d : dest4) (m : msg4),
+  srv4_step is lif now oob (Some req) = (is', O4Sent d m) ->
+  exists log : list (nat * option msg4),
+  handle4 (map (as_handler4 now) is) lif oob (Some req) = (Sent d m, log).
+Proof. exact (@AsmRefine.assembled_sent_is_handle4_sent). Qed.
+Print Assumptions assembled_sent_is_handle4_sent.
+
+Theorem assembled_dest4_relay :
+  forall (is : list inst4) (lif now : Z) (oob : option Z) (req : msg4)
+  (is' : list inst4) (d : dest4) (m : msg4),
+  srv4_step is lif now oob (Some req) = (is', O4Sent d m) ->
+  is_unspecified (m_giaddr req) = false ->
+  d =
+  DUdp (m_giaddr req) 67
+  (if ip_equal (m_giaddr req) bcast4 || is_link_local (m_giaddr req)
+  then pick_if lif oob
+  else None).
+Proof. exact (@AsmRefine.assembled_dest4_relay). Qed.
+Print Assumptions assembled_dest4_relay.
 
 (* Non-vacuity (proofs/Server4Examples.v): a DISCOVER through the chain [mark; set yiaddr; stop; mark]
    on an unbound listener is answered by a link-level OFFER on the receiving interface, the fourth
